@@ -56,6 +56,9 @@ func (w *valWorld) history() string                 { return strings.Join(w.log,
 // valWorldSecp: the next world's consensus parameters admit secp256k1 keys too and every second key is one.
 var valWorldSecp bool
 
+// valWorldLongOps: two of the next world's operator addresses are 32 bytes long and share a 20-byte prefix.
+var valWorldLongOps bool
+
 func newValWorld(nGenesis int, maxVals uint32, histN uint32, genesisPowers ...int64) (*valWorld, error) {
 	w := &valWorld{pow: map[string]int64{}, bonded: map[string]int{}, pending: map[string]int{}, zeroed: map[string]bool{}, keyOf: map[string]int{}, recorded: map[int64]string{}, pruned: map[int64]bool{}, touched: map[string]int{},
 		maxVals: maxVals, histN: histN, histNever0: histN > 0}
@@ -64,6 +67,12 @@ func newValWorld(nGenesis int, maxVals uint32, histN uint32, genesisPowers ...in
 	w.l2 = henv.NewL2(henv.L2Options{Admin: w.admin.Str, Executors: []string{w.executors[0].Str}})
 	for i := 0; i < nValOps; i++ {
 		w.ops = append(w.ops, sdk.ValAddress(henv.MakeUser(fmt.Sprintf("val-op-%d", i)).Addr))
+	}
+	if valWorldLongOps {
+		// two operators with 32-byte addresses (module-derived or contract accounts) that share their first 20 bytes
+		base := henv.MakeUser("val-op-long").Addr
+		w.ops[nValOps-2] = sdk.ValAddress(append(append([]byte{}, base...), bytes.Repeat([]byte{0x01}, 12)...))
+		w.ops[nValOps-1] = sdk.ValAddress(append(append([]byte{}, base...), bytes.Repeat([]byte{0x02}, 12)...))
 	}
 	keyTypes := []string{"ed25519"}
 	if valWorldSecp {
@@ -521,7 +530,7 @@ func (w *valWorld) restart() error {
 	n.BK.InitGenesis(n.Ctx, old.BK.ExportGenesis(old.Ctx))
 	var gs opchildtypes.GenesisState
 	n.Enc.Marshaler.MustUnmarshalJSON(old.Enc.Marshaler.MustMarshalJSON(old.K.ExportGenesis(old.Ctx)), &gs)
-	updates := n.K.InitGenesis(n.Ctx, &gs)
+	updates := n.K.InitGenesis(n.Ctx.WithBlockHeight(0), &gs) // InitChain runs at height 0
 	if err := n.ApplyUpdates(updates); err != nil {
 		return fmt.Errorf("the validator updates returned by InitGenesis after a restart are rejected by the consensus engine: %w", err)
 	}
